@@ -8,7 +8,7 @@
    the only standing hypothesis is that pool names are distinct (they are resource names). *)
 From Coq Require Import List NArith Arith Bool Sorting.Permutation Sorting.Sorted.
 From Verif.Common Require Import Prefix.
-From Verif.C39 Require Import Model Spec Order Proofs Reconcile History TrieLink Faults.
+From Verif.C39 Require Import Model Spec Order Proofs Reconcile History TrieLink Faults Release Conditions ConditionsProofs.
 Import ListNotations.
 
 (* (1) After a reconcile no two allocatable pools overlap. *)
@@ -249,6 +249,67 @@ Theorem c39_faults_history_no_delete_with_blocks : forall tf s p hs,
             /\ p_name q = p_name p /\ p_cidr q = p_cidr p /\ p_deleting q = true /\ p_fin q = true.
 Proof. exact history_f_no_delete_with_blocks. Qed.
 Print Assumptions c39_faults_history_no_delete_with_blocks.
+
+(* ---- a pool is never released while a block exists in it.  One step of any history (any API operation —
+   disable, enable, repeated delete requests, a foreign finalizer going away, other pools and blocks coming and
+   going — or a pass with ANY failing writes) keeps a pool that carries the controller's finalizer, with its CIDR,
+   and if it is terminating keeps it terminating and protected, unless the step is a pass at which the pool is
+   terminating and no block lies inside its CIDR. *)
+Theorem c39_protected_step : forall tf s h q,
+  Base s -> In q (st_pools s) -> p_fin q = true ->
+  (match h with
+   | FReconcile _ _ => p_deleting q = true -> has_block q (st_blocks s) = true
+   | FApi _ => True
+   end) ->
+  kept q (hstepf tf s h).
+Proof. exact protected_step. Qed.
+Print Assumptions c39_protected_step.
+
+(* for EVERY history from the empty cluster (incl. disable-after-delete, any failing writes): if some step makes a
+   protected pool disappear, that step is a reconcile pass, the pool was terminating, and no block lay in its CIDR *)
+Theorem c39_never_released_with_blocks : forall tf hs h blocks0 q,
+  Forall hopf_wf hs ->
+  let s := run_history_f tf (mkState [] blocks0) hs in
+  In q (st_pools s) -> p_fin q = true ->
+  ~ present (p_name q) (hstepf tf s h) ->
+  (exists sf uf, h = FReconcile sf uf) /\ p_deleting q = true /\ has_block q (st_blocks s) = false.
+Proof. exact never_released_with_blocks. Qed.
+Print Assumptions c39_never_released_with_blocks.
+
+(* ... and after a clean pass every allocatable pool is protected, so "protected" covers "was allocatable" *)
+Theorem c39_allocatable_protected_after_clean_pass : forall tf hs blocks0 q,
+  Forall hopf_wf hs ->
+  In q (st_pools (reconcile_step tf (run_history_f tf (mkState [] blocks0) hs))) ->
+  allocatable q = true -> p_fin q = true.
+Proof. exact allocatable_protected_after_clean_pass. Qed.
+Print Assumptions c39_allocatable_protected_after_clean_pass.
+
+(* ---- status.conditions as a list: setConditionOnPool / hasCondition (Conditions.v), tied to the real
+   functions by the driver's "conditions" stream *)
+(* the list model meets its specification for every list, duplicates included *)
+Theorem c39_set_condition_meets_spec : forall c cs,
+  ok_set cs c (fst (set_condition cs c)) (snd (set_condition cs c)) = true.
+Proof. exact set_condition_meets_spec. Qed.
+Print Assumptions c39_set_condition_meets_spec.
+
+(* refinement of Model.v's single optional Allocatable condition: writing Allocatable=(st,rs) makes the abstraction
+   Some (st,rs); hasCondition is has_status of the abstraction under the API server's one-condition-per-type rule,
+   which setConditionOnPool preserves *)
+Theorem c39_conditions_refine : forall cs c,
+  lc_type c = 0%N ->
+  abs (fst (set_condition cs c)) = Some (lc_status c, lc_reason c)
+  /\ others 0 (fst (set_condition cs c)) = others 0 cs
+  /\ (one_per_type cs -> one_per_type (fst (set_condition cs c)))
+  /\ (forall st, (count_type 0 cs <= 1)%nat ->
+        has_condition cs 0 st = match abs cs with Some (s, _) => status_eqb st s | None => false end).
+Proof.
+  intros cs c T. repeat split.
+  - apply abs_set_condition; auto.
+  - rewrite <- T. apply others_set_condition.
+  - apply set_one_per_type.
+  - intros st H. apply abs_has_condition; auto.
+Qed.
+Print Assumptions c39_conditions_refine.
 
 (* ---- poolSortFunc: the sorted permutation is unique when names are distinct, so the model's
    insertion sort and Go's slices.SortFunc (any correct sort) return the same list *)
